@@ -464,6 +464,15 @@ impl OwnerV3Helpers {
 	) -> Result<(JsonId, serde_json::Value), serde_json::Value> {
 		let share_key_ref = key.lock();
 		let shared_key = share_key_ref.as_ref().unwrap();
+		// an envelope is a JSON object that names the encrypted method, nothing else is opened
+		if !req.is_object() || req["method"].as_str() != Some("encrypted_request_v3") {
+			return Err(EncryptionErrorResponse::new(
+				1,
+				-32002,
+				"Encrypted request format error: not an encrypted_request_v3 object",
+			)
+			.as_json_value());
+		}
 		let enc_req: EncryptedRequest = serde_json::from_value(req.clone()).map_err(|e| {
 			EncryptionErrorResponse::new(
 				1,
